@@ -540,7 +540,7 @@ func init() {
 		Meta: func(c *core.Ctx) core.Meta {
 			return core.Meta{
 				Level:       "exploration",
-				Rule:        "list lengths {0,1,2,3,5,8,13,21,34,64} (+7 more in thorough) and long lists {1030,1100,2100,5000} (thorough up to 70000) with pools {1,2,4,7,64,n/2,n,0} x FixedPool in {-1,0,1,2,len-1,len,len+1,1000} and no option x {ordered, RandomOrder} x 5 duration profiles (uniform, decreasing with the index so that completion order reverses, one very slow first element, PRNG yields, sleeps); f is the monitor: per-element atomic call counters (unique elements), a concurrency gauge whose maximum is compared with min(FixedPool, len), result compared with the harness' own map (permutation for RandomOrder), gauge must be 0 when PMap returns; termination by the stuck detector; interface result types with nil results; zero-size result types (struct{}, [0]int); caller slices with spare capacity holding non-elements; nested use (f itself calls PMap; 300..1100 outer workers (thorough 5000), or several concurrent outer calls); one *PMapOption value reused across sequences of calls with lists of lengths {5,0,64,1,40,0,0,33,2,48} (bound per call from the FixedPool the caller wrote); repeated in the -race build (deciding: result assembly must be race-free). distinct_nontrivial = distinct scenarios",
+				Rule:        "list lengths {0,1,2,3,5,8,13,21,34,64} (+7 more in thorough) and long lists {1030,1100,2100,5000} (thorough up to 70000) with pools {1,2,4,7,64,n/2,n,0} x FixedPool in {-1,0,1,2,len-1,len,len+1,1000} and no option x {ordered, RandomOrder} x 5 duration profiles (uniform, decreasing with the index so that completion order reverses, one very slow first element, PRNG yields, sleeps); f is the monitor: per-element atomic call counters (unique elements), a concurrency gauge whose maximum is compared with min(FixedPool, len), result compared with the harness' own map (permutation for RandomOrder), gauge must be 0 when PMap returns; termination by the stuck detector; interface result types with nil results; zero-size result types (struct{}, [0]int); caller slices with spare capacity holding non-elements; nested use (f itself calls PMap; 300..1100 outer workers (thorough 5000), or several concurrent outer calls); one *PMapOption value reused across sequences of calls with lists of lengths {5,0,64,1,40,0,0,33,2,48} (bound per call from the FixedPool the caller wrote); repeated in the -race build (deciding: result assembly must be race-free). distinct_nontrivial = distinct scenarios; (round 7) one application ending its goroutine with runtime.Goexit (6 pool sizes x both modes x 3 positions): the call returns, at-most-once, no invented result",
 				Assumptions: []string{"FixedPool <= 0 or absent means len(list) goroutines", "the stuck verdict needs: no return, no hook progress for 2 s and no library goroutine running/runnable/sleeping in two successive dumps"},
 			}
 		},
